@@ -13,6 +13,9 @@ mod rich;
 mod util;
 mod val;
 mod p_clvm;
+mod corpus;
+mod p_history;
+mod p_atomic;
 
 use serde_json::{json, Value};
 
@@ -39,6 +42,10 @@ fn main() {
         "worker" => pool::worker_main(handle),
         "replay-clvm" => p_clvm::replay(&rest),
         "drive-clvm" => p_clvm::drive(&rest),
+        "c05-child" => p_history::child(&rest),
+        "drive-history" => p_history::drive(&rest),
+        "c19-child" => p_atomic::child(&rest),
+        "drive-atomic" => p_atomic::drive(&rest),
         "dump-optables" => p_optables::dump(&rest),
         "replay-print" => p_print::replay(&rest),
         "drive-print" => p_print::drive(&rest),
